@@ -735,6 +735,44 @@ def extract_purge_cleanup(repo):
     return 'own' if fetched and arg in ('%s.app_id' % var, 'self.app_label') else 'other'
 
 
+def extract_get_app_id_first(repo):
+    """ProjectSignature.get_app_sig looks the app up by its id first (`self._app_sigs.get(app_id)`) and walks the
+    legacy labels only when that found nothing"""
+    tree = ast.parse(_src(repo, 'django_evolution/signature.py'))
+    cls = _find_class(tree, 'ProjectSignature')
+    fn = _find_func(cls, 'get_app_sig')
+    body = [n for n in fn.body if not (isinstance(n, ast.Expr) and isinstance(n.value, ast.Constant))]
+    if len(body) < 2:
+        return False
+    first, second = body[0], body[1]
+    by_id = (isinstance(first, ast.Assign) and ast.unparse(first.value) == 'self._app_sigs.get(app_id)' and
+             len(first.targets) == 1 and isinstance(first.targets[0], ast.Name))
+    if not by_id:
+        return False
+    var = first.targets[0].id
+    guarded = (isinstance(second, ast.If) and ast.unparse(second.test) == '%s is None' % var and
+               any(isinstance(n, ast.For) for n in second.body) and 'legacy_app_label' in ast.unparse(second))
+    return bool(guarded)
+
+
+def extract_delete_model_iteration(repo):
+    """DeleteModel.mutate emits one statement per many-to-many field: 'ordered' when the statements are emitted while
+    walking `model_sig.field_sigs` itself, 'set' when table names are first collected into a set"""
+    tree = ast.parse(_src(repo, 'django_evolution/mutations/delete_model.py'))
+    cls = _find_class(tree, 'DeleteModel')
+    fn = _find_func(cls, 'mutate')
+    if any(isinstance(n, (ast.Set, ast.SetComp)) or
+           (isinstance(n, ast.Call) and isinstance(n.func, ast.Name) and n.func.id in ('set', 'frozenset'))
+           for n in ast.walk(fn)):
+        return 'set'
+    for n in ast.walk(fn):
+        if isinstance(n, ast.For) and ast.unparse(n.iter).endswith('model_sig.field_sigs') and \
+                any(isinstance(c, ast.Call) and isinstance(c.func, ast.Attribute) and c.func.attr == 'delete_table'
+                    for c in ast.walk(n)):
+            return 'ordered'
+    return 'unknown'
+
+
 def extract_optimizer_copies(repo):
     """AppMutator._preprocess_mutations rebinds `mutations` to a deep copy before anything else uses it"""
     tree = ast.parse(_src(repo, 'django_evolution/mutators/app_mutator.py'))
@@ -837,6 +875,15 @@ def regenerate(repo, outdir):
     parts.append('/-- `FieldSignature._ATTRIBUTE_ALIASES` -/')
     parts.append('def attrAliases : List (String × String) := ' + lean_list(
         '(%s, %s)' % (lean_str(k), lean_str(v)) for k, v in aliases))
+    gaf = extract_get_app_id_first(repo)
+    flags['get_app_id_first'] = gaf
+    parts.append('')
+    parts.append('/-- ProjectSignature.get_app_sig: an exact app id takes precedence over a legacy label -/')
+    parts.append('def getAppIdFirst : Bool := ' + ('true' if gaf else 'false'))
+    dmi = extract_delete_model_iteration(repo)
+    flags['delete_model_iteration'] = dmi
+    parts.append('/-- how DeleteModel.mutate walks the many-to-many tables it drops -/')
+    parts.append('def deleteModelIteration : String := ' + lean_str(dmi))
     pc = extract_purge_cleanup(repo)
     flags['purge_cleanup'] = pc
     parts.append('')
